@@ -263,7 +263,7 @@ def rule_claim_order(ctx: RuleContext, p: Program, rid: str) -> None:
     rp = p.cls('Repeated', 'models.internal.repeated')
     g = p.method(rp, 'auto_claim_comments', inherited=False)
     lp = [l for l in walk_no_nested(g.node) if isinstance(l, ast.For)]
-    ok = len(lp) == 1 and norm(lp[0].iter) == 'reversed(self.items)'
+    ok = len(lp) == 1 and norm(lp[0].iter) in ('reversed(self.items)', 'self.items[::-1]', 'list(reversed(self.items))')
     ctx.check(ok, rid, 'models.internal.repeated:Repeated.auto_claim_comments', norm(lp[0].iter) if lp else '',
               'Repeated.auto_claim_comments does not visit items in reverse (a later item must claim its leading comment before '
               'the earlier one claims it as trailing)', g.where, note='reversed(self.items)')
@@ -315,6 +315,10 @@ def run(ctx: RuleContext, p: Program) -> None:
     from .c04 import rule_take_ignored
     ctx.try_rule(rule_take_ignored, p, 'TAKE-IGNORED')
     ctx.try_rule(rule_claim_walk, p, 'CLAIM-WALK')
+    from . import round4
+    ctx.try_rule(round4.rule_claim_descend, p, 'CLAIM-DESCEND')
+    from . import presence
+    ctx.try_rule(presence.rule_presence_truth, p, 'PRESENCE-TRUTH')
     from . import claimorder
     ctx.try_rule(claimorder.rule_splice_order, p, 'SPLICE-ORDER')
     ctx.not_decided += ['attribution rules for each layout (blank lines, indentation classes)', 'idempotence and '
